@@ -24,8 +24,8 @@ type PropSpec struct {
 
 var propSpecs = map[string]*PropSpec{
 	"C01": {ID: "C01", Pkgs: []string{"./benchfmt"}},
-	"C02": {ID: "C02", Pkgs: []string{"./benchfmt"}},
-	"C03": {ID: "C03", Pkgs: []string{"./benchfmt", "./benchfmt/internal/bytesconv"}},
+	"C02": {ID: "C02", Pkgs: []string{"./benchfmt", "./benchunit", "./benchfmt/internal/bytesconv"}},
+	"C03": {ID: "C03", Pkgs: []string{"./benchfmt", "./benchunit", "./benchfmt/internal/bytesconv"}},
 	"C04": {ID: "C04", Pkgs: []string{"./benchfmt", "./benchunit", "./benchproc"}},
 	"C05": {ID: "C05", Pkgs: []string{"./benchfmt", "./benchproc"}, BoundedChecks: []boundedSpec{
 		{"benchproc", "extract", "key extraction (/k first segment, /gomaxprocs, absent = empty) against a reference written from the format description, for every name up to a stated length over the alphabet {a b / - = 1}"}}},
